@@ -27,14 +27,14 @@ FIXTURES = {
 }
 
 
-def plan_e2e(seed, tag, mix, total, shards=None, extra=None, timeout=None):
+def plan_e2e(seed, tag, mix, total, shards=None, extra=None, timeout=None, nwcap=12):
     if shards is None:
         shards = max(16, min(64, total // 4))   # many small shards: the runner keeps 16 busy, which balances slow cases
     specs = []
     for i, n in enumerate(common.split_counts(total, shards)):
         if n == 0:
             continue
-        sp = dict(name="e2e-%d" % i, mode="interp", what="e2e", mix=mix, n=n, seed=[seed, tag, i])
+        sp = dict(name="e2e-%d" % i, mode="interp", what="e2e", mix=mix, n=n, seed=[seed, tag, i], nwcap=nwcap)
         if timeout:
             sp["timeout"] = timeout
         specs.append(sp)
@@ -42,6 +42,7 @@ def plan_e2e(seed, tag, mix, total, shards=None, extra=None, timeout=None):
 
 
 def run_e2e_shard(spec, res, props, nontrivial, coverage_props=None):
+    wc.NW_CAP[0] = int(spec.get("nwcap", 12))
     gens = [(w, GEN[name]) for name, w in spec["mix"].items()]
     stream = e2e_check.case_stream(spec["seed"], spec["n"], gens)
     e2e_check.run_cases(res, stream, props, nontrivial, coverage_props=coverage_props if coverage_props is not None else props)
